@@ -6,7 +6,7 @@ generated model; lock-step programs py<->C on 48K and 128K memory, with and with
 import simcorr
 import simgen
 from framework import fresh_import
-from simcheck import single_step, build_impls
+from simcheck import single_step, build_impls, counter_sweep, t_bias
 
 PROPS = 'SkoolVerif.Props.C06'
 INTERESTING = (0x00, 0x76, 0xFB, 0xF3, 0xDD, 0xFD, 0xCB, 0xED, 0xD3, 0xDB, 0x10, 0x18, 0x20, 0xC3, 0xCD, 0xC9, 0xE5, 0xE1,
@@ -119,6 +119,23 @@ def lockstep(chk, classes, pagingtracer):
                               {'kind': 'lockstep', 'seed': [chk.seed, n], 'pair': [a, b], 'start': start, 'code': code, 'regs': regs, 'state': st, 'is128': is128, 'o7ffd': o7})
 
 
+def pairwise_steps(chk, impls):
+    """The property itself per slot: Python and C implementations of the same simulator, same state,
+    one instruction: identical registers, fields, port sequences and final memory."""
+    rng = chk.rng
+    wr = {name: w for name, w, _, _ in impls}
+    for a, b in (('py-plain', 'c-plain'), ('py-cmio', 'c-cmio')):
+        for tbl, op in simcorr.all_slots():
+            for st in [simcorr.rand_state(rng, tbl, op, t_bias=t_bias) for _ in range(chk.scale(2, 25))] + list(counter_sweep(rng, tbl, op)):
+                st[4][0] = 1 if (st[4][0] or st[4][1] or st[4][2]) else 0
+                x = simcorr.norm(simcorr.final_diff(wr[a].step(*st), st[2]))
+                y = simcorr.norm(wr[b].step(*st))
+                chk.case(f'pair:{a}:{tbl}', (a, tbl, op, tuple(st[0]), tuple(st[1])))
+                if x != y:
+                    chk.violation(f'{a}-vs-{b}:step:{tbl}:{op:02X}', f'{a} vs {b} slot {tbl} {op:02X}: {x} vs {y}',
+                                  {'kind': 'pairstep', 'pair': [a, b], 'state': [st[0], st[1], {str(k): v for k, v in st[2].items()}, st[3], st[4]]})
+
+
 def interrupt_runs(chk, classes):
     """run(start, stop, interrupts=True): structured loops with EI/HALT/IM, handler at 0x38 / IM2 vector."""
     rng = chk.rng
@@ -176,6 +193,7 @@ def run(chk):
     impls, classes = build_impls(chk)
     if gen_ok and ok:
         single_step(chk, impls)
+    pairwise_steps(chk, impls)
     lockstep(chk, classes, pagingtracer)
     interrupt_runs(chk, classes)
 
@@ -184,6 +202,12 @@ def replay(chk, data):
     (pagingtracer,) = fresh_import('skoolkit.pagingtracer')
     impls, classes = build_impls(chk)
     cls = dict(classes)
+    if data['kind'] == 'pairstep':
+        wr = {name: w for name, w, _, _ in impls}
+        regs, fields, mem, ins, tracers = data['state']
+        mem = {int(k): v for k, v in mem.items()}
+        a, b = data['pair']
+        return simcorr.norm(simcorr.final_diff(wr[a].step(regs, fields, mem, ins, tracers), mem)) != simcorr.norm(wr[b].step(regs, fields, mem, ins, tracers))
     if data['kind'] == 'int':
         a, b = data['pair']
         mem = [0] * 65536
